@@ -50,6 +50,8 @@ def _case(draw):
     case["q"] = draw(gen.source(case["ny"], case["nx"], kinds=("sparse", "dense", "smooth", "delta")))
     case["tower"] = draw(gen.tower(case))
     case["bg"] = draw(st.sampled_from([0.0, 2.5, -1.0, 410.0, 400, 3]))  # ints stay ints in JSON
+    # height-independent profiles are also solved with the closed form (analytic=True): same budget
+    case["analytic"] = case["prof"]["kind"] == "const" and draw(st.booleans())
     case["fp_halo"] = draw(st.booleans())  # mode used for the halo-equivalence sub-check
     case["recentre"] = draw(st.booleans())
     return case
@@ -105,10 +107,10 @@ def check_case(case):
 
     # ---- (a) conservation on the bare periodic domain
     _, conc, flx = sut.S(q0, z, prof, dom, lv, modes=modes, meas_pt=(0.0, 0.0), srf_bg_conc=case["bg"],
-                         halo=0.0, precision="double")
+                         halo=0.0, precision="double", analytic=bool(case.get("analytic")))
     conc, flx = sut.as3d(conc), sut.as3d(flx)
     _, cfp, ffp = sut.S(q0, z, prof, dom, lv, modes=modes, meas_pt=mp, footprint=True, srf_bg_conc=case["bg"], halo=0.0,
-                        precision="double")
+                        precision="double", analytic=bool(case.get("analytic")))
     cfp, ffp = sut.as3d(cfp), sut.as3d(ffp)
     dz = np.diff(z)
     Rtrap = np.concatenate([[0.0], np.cumsum(dz * (0.5 / Kz[:-1] + 0.5 / Kz[1:]))])
@@ -153,7 +155,7 @@ def check_case(case):
     recentre = case["recentre"] and not fpm
     mp_h = mp if (fpm or recentre) else (0.0, 0.0)
     _, ch, fh = sut.S(q0, z, prof, dom, lv, modes=modes, meas_pt=mp_h, srf_bg_conc=case["bg"], footprint=fpm,
-                      halo=hv, precision="double")
+                      halo=hv, precision="double", analytic=bool(case.get("analytic")))
     ch, fh = sut.as3d(ch), sut.as3d(fh)
     if fh.shape[1:] != q0.shape:
         out.bad(f"halo call returned shape {fh.shape}, source is {q0.shape}")
@@ -174,7 +176,7 @@ def check_case(case):
             if recentre and mp_h == (0.0, 0.0):
                 mpp = (0.0, 0.0)
             _, cp, fp = sut.S(qp, z, prof, domp, lv, modes=modes, meas_pt=mpp, srf_bg_conc=case["bg"],
-                              footprint=fpm, halo=0.0, precision="double")
+                              footprint=fpm, halo=0.0, precision="double", analytic=bool(case.get("analytic")))
             cp, fp = sut.as3d(cp), sut.as3d(fp)
             cp = cp[:, cy : cy + ny, cx : cx + nx]
             fp = fp[:, cy : cy + ny, cx : cx + nx]
